@@ -78,6 +78,19 @@ func (d *Pegnetd) GetPegNetRateAverages(ctx context.Context, height uint32) (Avg
 
 		startHeight := uint32(startHeightS)
 
+		// While heights are requested one after the other, collectRatesAtHeight trims the data by
+		// count, so after a block without rates the data of a node that was never restarted reaches
+		// back further than AveragePeriod heights. Reload from where that node's data starts, so
+		// that the averages (and every conversion priced with them) do not depend on when the
+		// process was started or on which heights were requested in between.
+		if runStart := d.startOfRatedRun(ctx, startHeight, height); runStart > startHeight && runStart <= height {
+			s := int64(runStart) - (int64(AveragePeriod)) + 1
+			if s < 1 {
+				s = 1
+			}
+			startHeight = uint32(s)
+		}
+
 		for h := startHeight; h <= height; h++ { //            Collect rates over the blocks (including height)
 			collectRatesAtHeight(h) //                           and add them to ratesOverPeriod
 		}
@@ -100,6 +113,20 @@ func (d *Pegnetd) GetPegNetRateAverages(ctx context.Context, height uint32) (Avg
 	}
 
 	return averages // Return the rates we found.
+}
+
+// startOfRatedRun returns the lowest height g in [from, to] such that every height in [g, to] has
+// rates, or to+1 if the height to itself has none.
+func (d *Pegnetd) startOfRatedRun(ctx context.Context, from, to uint32) uint32 {
+	g := to + 1
+	for h := to; h >= from && h >= 1; h-- {
+		rates, err := d.Pegnet.SelectRates(ctx, h)
+		if err != nil || len(rates) == 0 {
+			break
+		}
+		g = h
+	}
+	return g
 }
 
 func numberMissing(dataset []uint64) (numZeros uint64) {
